@@ -190,6 +190,25 @@ int main(int argc, char **argv)
 	check_relation("msg_is_before", R_msg);
 	check_relation("q_elem_is_before", R_q);
 	sx_sample("triple over alphabet of %d events, e.g. %s %s %s", NE, desc[3], desc[17], desc[NE - 1]);
+	int ne1 = NE;
+	/* second alphabet: the type code is any 32-bit value the model chooses - values spanning the whole range (differences >= 2^31),
+	 * on timestamp ties */
+	static const unsigned wide[] = {0u, 1u, 0x60000000u, 0x7fffffffu, 0x80000000u, 0xc0000000u, 0xffffffffu};
+	static const unsigned wsizes[] = {0, 33};
+	NE = 0;
+	for(int t = 0; t < 2; ++t)
+		for(int anti = 0; anti < 2; ++anti)
+			for(int ti = 0; ti < 7; ++ti)
+				for(int si = 0; si < 2; ++si)
+					for(int v = 0; v < nvar(wsizes[si]) && v < 2; ++v) {
+						E[NE] = mk((double)t, anti, wide[ti], wsizes[si], v);
+						snprintf(desc[NE], sizeof desc[NE], "(t=%d anti=%d type=0x%x size=%u content#%d)", t, anti, wide[ti], wsizes[si], v);
+						NE++;
+					}
+	check_relation("msg_is_before", R_msg);
+	check_relation("q_elem_is_before", R_q);
+	sx_sample("triple over the wide-type alphabet of %d events, e.g. %s %s", NE, desc[5], desc[NE - 1]);
+	NE += ne1;
 	sx_sample("variant check: %s with PROCESSED bit / remote id bits / m_seq / dest / next / address / bytes beyond the payload changed", desc[5]);
 	char extra[200];
 	snprintf(extra, sizeof extra, "\"alphabet\": %d, \"relations\": 2", NE);
